@@ -178,6 +178,7 @@ class FnSpec:
         self.props = []
         self.contract = ""      # requires/ensures text
         self.loops = {}         # k -> text
+        self.closures = {}      # k -> text
         self.iters = {}         # k -> name
         self.proofs = []        # (anchor, text)
         self.trusted = False
@@ -202,6 +203,8 @@ def parse_vspec(text: str, path: str) -> dict:
             cur.contract = t
         elif section[0] == "loop":
             cur.loops[section[1]] = t
+        elif section[0] == "closure":
+            cur.closures[section[1]] = t
         elif section[0] == "proof":
             cur.proofs.append((section[1], t))
         buf = []
@@ -226,6 +229,9 @@ def parse_vspec(text: str, path: str) -> dict:
         elif s.startswith("@loop "):
             flush()
             section = ("loop", int(s.split()[1]))
+        elif s.startswith("@closure "):
+            flush()
+            section = ("closure", int(s.split()[1]))
         elif s.startswith("@iter "):
             _, k, nm = s.split()
             cur.iters[int(k)] = nm
@@ -291,8 +297,13 @@ def splice_body(body: str, spec: FnSpec, n_loops: int, key: str) -> str:
             if k >= n_loops:
                 raise Undecided(f"{key}: spec names loop {k} but the function has {n_loops} loops (lost anchor)")
     # diverging closures (T5)
-    body = re.sub(r"(\|[^|]*\|)\s*\{\s*__vx_diverge!\(\d+\);", r"\1 ensures false {", body)
-    body = re.sub(r"move ensures false", "move ensures false", body)
+    def clos(m):
+        k = int(m.group(3))
+        txt = (spec.closures.get(k) if spec else None)
+        if txt is None:
+            txt = "ensures false" if m.group(2) == "diverge" else ""
+        return f"{m.group(1)} {txt.strip()} {{" if txt.strip() else f"{m.group(1)} {{"
+    body = re.sub(r"(\|[^|]*\|)\s*\{\s*__vx_(diverge|closure)!\((\d+)\);", clos, body)
     if "__vx_" in body:
         raise Undecided(f"{key}: unreplaced marker")
     # proof insertions
@@ -325,6 +336,9 @@ def splice_body(body: str, spec: FnSpec, n_loops: int, key: str) -> str:
                     raise Undecided(f"{key}: anchor {anchor!r}: statement end not found")
                 lines.insert(end + 1, block)
                 body = "\n".join(lines)
+            elif anchor == "end":
+                i = body.rindex("}")
+                body = body[:i] + block + "\n" + body[i:]
             elif anchor.startswith("before "):
                 m = re.match(r'before\s+"(.*)"(?:\s+#?(\d+))?$', anchor)
                 needle, nth = m.group(1), int(m.group(2) or 0)
@@ -350,6 +364,9 @@ use vstd::std_specs::iter::IteratorSpecImpl;
 macro_rules! panic_with_error {
     ($e:expr, $err:expr) => { sdk_panic($err as u32) };
 }
+macro_rules! symbol_short {
+    ($s:literal) => { Symbol::vx_short($s) };
+}
 macro_rules! vx_panic {
     ($($t:tt)*) => { sdk_panic(0u32) };
 }
@@ -365,6 +382,12 @@ def load_unit(unit: str) -> dict:
     return u
 
 
+def fix_bounds(t: str) -> str:
+    """T9: SDK conversion bounds -> the model's encoding trait"""
+    t = re.sub(r"(IntoVal|TryFromVal|TryIntoVal)\s*<\s*Env\s*,\s*Val\s*>", "ToSV", t)
+    return t
+
+
 def fn_header(f: dict, name_override=None, ret_name="r") -> str:
     g = f"<{f['generics']}>" if f["generics"] else ""
     ps = ", ".join(f"{p['name']}: {p['ty']}" if p["name"] != "self" else p["ty"] for p in f["params"])
@@ -372,6 +395,8 @@ def fn_header(f: dict, name_override=None, ret_name="r") -> str:
     vis = (f["vis"] + " ") if f["vis"] else ""
     nm = name_override or f["name"]
     wh = ("\n    " + f["where"]) if f.get("where") else ""
+    g = fix_bounds(g)
+    wh = fix_bounds(wh)
     return f"{vis}fn {nm}{g}({ps}){ret}{wh}"
 
 
@@ -478,6 +503,10 @@ def assemble(unit: dict, scratch: str, passname="A") -> Assembled:
             key = f["key"]
             sp = specs.get(key)
             body = splice_body(f["body"], sp, f["n_loops"], key)
+            bc = (sp.opts.get("broadcast") if sp else None) or ",".join(unit.get("broadcast", []))
+            if bc and bc != "none":
+                i = body.index("{")
+                body = body[:i + 1] + "\n    broadcast use " + ", ".join(bc.split(",")) + ";" + body[i + 1:]
             contract = sp.contract if sp else ""
             attrs = ""
             if sp and sp.trusted:
